@@ -109,18 +109,20 @@ fn main() {
         Tier::Thorough => {
             for src in 0..fam.len() {
                 let dmax = match fam[src].name {
-                    "K1" => 1,
+                    // two demotions on the three sources that between them exercise every dynamic rule
+                    "J0" | "J1" | "J2" => 2,
+                    "J3" | "J5" | "K1" => 1,
                     // the biggest sources: the default schedules of both base orders (every access pair is judged by the
                     // happens-before monitor there)
-                    "K2" | "N1" => 0,
-                    _ => 2,
+                    _ => 0,
                 };
+                for main_last in [false, true] {
+                    plans.push(Plan { src, k: big, main_last, dmax });
+                }
                 // with at most one demotion no more than two tasks are ever in flight (the strict-priority base
                 // scheduler runs a task to its end before the next starts), so a pool of 2 only differs from d = 2 on
-                for k in if dmax >= 2 { vec![big, 2] } else { vec![big] } {
-                    for main_last in [false, true] {
-                        plans.push(Plan { src, k, main_last, dmax });
-                    }
+                if fam[src].name == "J1" {
+                    plans.push(Plan { src, k: 2, main_last: false, dmax: 2 });
                 }
             }
         }
@@ -212,7 +214,7 @@ fn main() {
     let mut per_plan = vec![];
     let mut samples = vec![];
     let mut all_exhaustive = true;
-    let budget_s = args.tier.pick(150.0, 1500.0) * vcore::budget_scale();
+    let budget_s = args.tier.pick(150.0, 2400.0) * vcore::budget_scale();
     let t0 = std::time::Instant::now();
     for (pi, plan) in plans.iter().enumerate() {
         let src = &fam[plan.src];
